@@ -50,3 +50,13 @@ Theorem c14_world_stays_usable_afterwards :
     FInv (fold_left (run_top_all beh) ops (world0 fuel p)).
 Proof. exact reachable_FInv. Qed.
 Print Assumptions c14_world_stays_usable_afterwards.
+
+(* ---------- the bit set of referenced components (src/bit_set.rs, coq/BitSet.v) ---------- *)
+Require Import EV.BitSet.
+(* "then removes every handler that references it": referenced components are a BitSet; insertion and union are the set
+   operations and contains answers membership exactly, for every index and every block layout *)
+Theorem c14_referenced_component_sets_insert_and_union :
+  forall (s t : bs) (i j : N),
+    (bs_mem (snd (bs_insert s i)) j = (j =? i)%N || bs_mem s j) /\ bs_mem (bs_or s t) j = bs_mem s j || bs_mem t j.
+Proof. exact bs_insert_or_spec. Qed.
+Print Assumptions c14_referenced_component_sets_insert_and_union.
